@@ -520,6 +520,20 @@ def strict_neg(g):
     return None
 
 
+def _strictly_not(g):
+    """the goal fails with strict inequalities (so that the numeric re-evaluation is not on a boundary)"""
+    if g.op == 'cmp':
+        k, a, b = g.a
+        if k in ('<', '<='): return cmp('>', a, b)
+        if k in ('>', '>='): return cmp('<', a, b)
+        if k == '==': return bor(cmp('>', a, b), cmp('<', a, b))
+        return None
+    if g.op == 'and':
+        parts = [p for p in (_strictly_not(x) for x in g.a) if p is not None]
+        return bor(*parts) if parts else None
+    return None
+
+
 def default_range(name, sort):
     """sampling heuristics by name (only steers the falsifier; every hit is re-checked against the hypotheses)"""
     n = name.lower()
@@ -561,11 +575,36 @@ def _numeric_probe(ob, seed, tries=4000, want=200):
     rng = random.Random(seed + 17)
     ranges = ob.meta.get('ranges', {})
     hits = 0
-    for _ in range(tries):
+    # thresholds written in the code (numeric constants of the formulas): real variables are also sampled around them, so that a
+    # case distinction at a magic number (`max(precision, 1e-6)`) is actually visited
+    consts = sorted({abs(float(n.a[0])) for n in collect(xs, lambda n: isinstance(n, T) and n.op == 'c') if n.a[0] != 0 and 1e-12 < abs(float(n.a[0])) < 1e12})[:40]
+    # candidate values for the variables of the goal from z3 on the application-free hypotheses that share variables with the goal:
+    # only a SEED for the sampler - a counterexample still has to satisfy every hypothesis numerically (checked below)
+    seedv = {}
+    if ob.expect == 'unsat':
+        try:
+            gv = set(free_vars(ob.goal))
+            rel = [h for h in ob.hyps if not collect([h], lambda n: isinstance(n, T) and n.op in ('app', 'exp', 'log')) and set(free_vars(h)) & gv]
+            if gv and not collect([ob.goal], lambda n: isinstance(n, T) and n.op in ('app', 'exp', 'log')):
+                zz_ = Z(); sv_ = z3.Solver(); sv_.set('timeout', 3000)
+                sv_.add(*[zz_.b(h) for h in rel]); sn_ = _strictly_not(ob.goal); sv_.add(zz_.b(sn_) if sn_ is not None else z3.Not(zz_.b(ob.goal)))
+                if sv_.check() == z3.sat:
+                    m_ = sv_.model()
+                    for n_ in set(free_vars(*(rel + [ob.goal]))):
+                        v_ = m_.eval(zz_.v(n_, fv[n_].a[1]), model_completion=True)
+                        seedv[n_] = _val(v_)
+        except Exception:
+            seedv = {}
+    for try_ in range(tries):
         env = {}
         for n, t in fv.items():
             lo, hi = ranges.get(n) or default_range(n, t.a[1])
-            env[n] = rng.randint(int(lo), int(hi)) if t.a[1] == 'I' else rng.uniform(lo, hi)
+            if seedv and try_ < tries // 2 and n in seedv and seedv[n] is not None:
+                env[n] = seedv[n]
+            elif t.a[1] != 'I' and consts and n not in ranges and rng.random() < 0.3:
+                env[n] = rng.choice(consts) * rng.choice((0.1, 0.5, 0.999, 1.0, 1.001, 2.0, 10.0))
+            else:
+                env[n] = rng.randint(int(lo), int(hi)) if t.a[1] == 'I' else rng.uniform(lo, hi)
         # callee results are universally quantified too (subject to the assumed postconditions in hyps), but functionally:
         # applications of one callee to numerically equal arguments get the same value (innermost first)
         try:
